@@ -355,6 +355,13 @@ impl GrandState {
             ));
         }
         if option == EnterSubshellOption::Ignore {
+            if self.current_state.action != Action::Ignore
+                && self.current_state.origin == Origin::Inherited
+            {
+                // The signal was not ignored on the shell startup; it is the
+                // shell that ignores it now. (See also `Self::ignore`.)
+                self.current_state.origin = Origin::Subshell;
+            }
             self.current_state.action = Action::Ignore;
         }
 
